@@ -566,6 +566,10 @@ class FiltersSet:
         for f in self.filters:
             if f["name"] != name:
                 continue
+            if self.__isdisabled(f["content"]):
+                # already disabled: do not wrap a second time
+                f["enabled"] = False
+                return True
             ifcontrol.addchild(f["content"])
             f["content"] = ifcontrol
             f["enabled"] = False
